@@ -320,12 +320,21 @@ func (s *Sim) snapshot(r *Replica, catchup uint64) {
 // receiver's cycle) until the bag is empty or the round budget is used.
 func (s *Sim) round() {
 	s.count("fair_rounds", 1)
+	// like the real loop, which re-notifies itself while a Ready reports
+	// MoreCommittedEntries, a replica keeps cycling until its commit backlog
+	// is handed out (bounded per round)
+	cyc := func(r *Replica) {
+		s.cycle(r, -1, 0, 0)
+		for k := 0; k < 256 && r != nil && r.alive && r.more && !r.noApply && !s.Done(); k++ {
+			s.cycle(r, -1, 0, 0)
+		}
+	}
 	for _, r := range s.alive() {
 		if r.pendingTicks < 100 {
 			r.node.Tick()
 			r.pendingTicks++
 		}
-		s.cycle(r, -1, 0, 0)
+		cyc(r)
 		if s.Done() {
 			return
 		}
@@ -348,13 +357,13 @@ func (s *Sim) round() {
 		if s.Done() {
 			return
 		}
-		s.cycle(s.rep(to), -1, 0, 0)
+		cyc(s.rep(to))
 		if s.Done() {
 			return
 		}
 		// a failure/unreachable report queued at the sender
 		if snd := s.rep(from); snd != nil && snd.alive && snd.pendingIn > 0 {
-			s.cycle(snd, -1, 0, 0)
+			cyc(snd)
 			if s.Done() {
 				return
 			}
